@@ -136,14 +136,17 @@ def mutate(rng, doc, version):
                 e["signed_by"] = num
                 els.insert(rng.randrange(len(els) + 1), e)
             else:
-                if num != num:
-                    num = float("inf")     # (as a name: not NaN, which equals nothing)
+                # (NaN as a name equals nothing, itself included: every reference in this
+                # document is the very same object, as it is for a JSON parser's NaN)
                 e = rng.choice(els)
                 old = e.get("name")
                 for x in els:
                     if x.get("signed_by") == old:
                         x["signed_by"] = num
                 e["name"] = num
+                if rng.random() < 0.3:
+                    e["signed_by"] = num      # ... and certifies itself
+                    labels.append("self-signed")
                 if isinstance(d.get("targets"), list):
                     d["targets"] = [num if t == old else t for t in d["targets"]]
             labels.append("nonfinite-number")
